@@ -34,6 +34,8 @@ from . import lines_common as lc
 from .core import MachineryError
 
 FR = ["«1»", "«2»", "«3»"]
+SUSPICIOUS = [("ff", "\x0c"), ("vt", "\x0b"), ("nel", "\x85"), ("ls", "\u2028"), ("ps", "\u2029"), ("fs", "\x1c"),
+              ("lone-cr", "\r"), ("nbsp", "\xa0"), ("non-bmp", "\U0001f600")]
 
 
 def _strip(s):
@@ -175,6 +177,10 @@ def build_catalog(rng):
     E.append(_rt("w.block", "<%\n" + "\n" * B + "   a = 1\n" * P + "   y = " + F + W + "\n%>", "warn", exact=True, site="literal"))
     E.append(_rt("w.modblock", "<%!\n" + "\n" * B + "   y = " + F + W + "\n%>", "warn", exact=True, site="literal"))
     E.append(_rt("w.modexec", "<%!\n   import warnings\n" + "\n" * B + "   " + F + "warnings.warn('modlevel')\n%>", "warn", exact=True, site="modexec"))
+    # ---- filler whose EARLIER lines hold characters that other notions of "line" break on (str.splitlines, editors):
+    # Mako counts lines by "\n" only, so none of them may shift what is displayed for a later line
+    for name, ch in SUSPICIOUS:
+        E.append(c11._entry("sus." + name, "a" + ch + "b\n", "sus"))
     for e in E:
         e["ev"] = _events(_strip(e["text"]).replace("NEXT", "/n.html"))
     return E, cos
@@ -280,6 +286,27 @@ def render_and_observe(get, stubs, want_templates=False):
     return o
 
 
+def html_frames(html):
+    """[(file, line, displayed source text)] of the stack section of html_error_template output."""
+    import html as _h
+    out = []
+    parts = re.split(r'<div class="location">', html)[1:]
+    for part in parts:
+        m = re.match(r"(.*?), line (\d+):</div>(.*)", part, re.S)
+        if not m:
+            continue
+        body = m.group(3)
+        mc = re.search(r'<td class="code">(.*?)</td>', body, re.S) or re.search(r'<div class="sourceline">(.*?)</div>', body, re.S)
+        shown = _h.unescape(re.sub(r"<[^>]*>", "", mc.group(1))).strip() if mc else None
+        out.append((_h.unescape(m.group(1)), int(m.group(2)), shown))
+    return out
+
+
+def text_frames(txt):
+    """[(file, line, function, displayed source text)] of text_error_template output."""
+    return [(a, int(b), c, d.strip()) for a, b, c, d in re.findall(r'  File "([^"\n]*)", line (\d+), in (\S+)\n    ([^\n]*)', txt)]
+
+
 def compare_frames(exp, o, texts):
     """exp: [(expected filename or None for 'module id', uri, line)] outermost first."""
     if o["res"] != "exc":
@@ -307,11 +334,19 @@ def compare_frames(exp, o, texts):
     if "tmpl_exc" in o:
         return ("error-template", "raises:" + o["tmpl_exc"])
     if "text_tmpl" in o:
+        tf, hf = text_frames(o["text_tmpl"]), html_frames(o["html_tmpl"])
         for (fname, uri, line), f in zip(exp, fr):
-            if 'File "%s", line %d, in %s' % (f["file"], line, f["fn"]) not in o["text_tmpl"]:
+            want = (lc.physical_line(texts[uri], line) or "").strip()
+            hit = [x for x in tf if x[0] == str(f["file"]) and x[1] == line and x[2] == f["fn"]]
+            if not hit:
                 return ("text-error-template", "frame-missing")
-            if "%s, line %d:" % (f["file"], line) not in o["html_tmpl"]:
+            if all(x[3] != want for x in hit):
+                return ("text-error-template", "source-line")
+            hit = [x for x in hf if x[0] == str(f["file"]) and x[1] == line]
+            if not hit:
                 return ("html-error-template", "frame-missing")
+            if all(x[2] != want for x in hit):
+                return ("html-error-template", "source-line")
     return None
 
 
@@ -397,6 +432,13 @@ def check(run):
             run.spec_violation(res)
     if n_cases < 500:
         raise MachineryError("TLC exported only %d cases" % n_cases)
+    sus = c11.idx(E, "sus")
+    rep = [i + 1 for i, e in enumerate(E) if e["id"] in ("rt.expr", "rt.block", "rt.ctl.if", "rt.defcall", "rt.calltag", "rt.ctl.for-loop", "rt.namedblock")]
+    res = run.tlc("MC_Lines", cfg_lines(sus, rep, [], 2 if thorough else 1, ["lf", "crlf"], inv), name="mc-suspicious-filler",
+                  workers=workers, extra_files=files)
+    if res.violated:
+        run.spec_violation(res)
+    n_sus = take(res, "sus")
     # ------------------------------------------------------------------ 2. TLC: the printer's accounting (LineMap.tla)
     lm_inv = ["EveryEmittedLineMapsHome", "PlantedLineEmitted"]
     for hdr in ((17, 31) if thorough else (17,)):
@@ -467,7 +509,8 @@ def check(run):
         token = "(0*%d)" % c["fpos"]
         paths = ["plain"]
         key = (fe["id"], c["nl"])
-        if key not in seen_paths or hsh(ci) % stride == 0:
+        is_sus = any(E[i - 1]["group"] == "sus" for i in c["seq"])
+        if key not in seen_paths or hsh(ci) % stride == 0 or is_sus:
             seen_paths.add(key)
             paths += ["lookup-strings", "file", "lookup", "moddir"]
         for p in paths:
@@ -491,7 +534,7 @@ def check(run):
                             raise names["!fail"]
                         tl[0] = lk.get_template("/t.html")
                         return tl[0]
-            o = render_and_observe(get, stubs_of(c), want_templates=(p in ("plain", "file") and hsh(ci, p) % 3 == 0))
+            o = render_and_observe(get, stubs_of(c), want_templates=(p in ("plain", "file") and (is_sus or hsh(ci, p) % 3 == 0)))
             n_render += 1
             exp = [(fname, "/t.html", l) for l in c["frames"]]
             d = compare_frames(exp, o, {"/t.html": text})
@@ -512,14 +555,20 @@ def check(run):
         if ci < 3:
             run.sample({"layout": [E[i - 1]["id"] for i in c["seq"]], "nl": c["nl"], "template": text, "expected_frame_lines": c["frames"]})
     # ---- format_exceptions output
-    for ci, c in enumerate(leafs[:: max(1, len(leafs) // 60)]):
+    fx = leafs[:: max(1, len(leafs) // 60)] + [c for c in leafs if any(E[i - 1]["group"] == "sus" for i in c["seq"])]
+    for ci, c in enumerate(fx):
         from mako.template import Template
         nl = "\n" if c["nl"] == "lf" else "\r\n"
         text = compose(E, c["seq"], nl)
         try:
             out = Template(text, format_exceptions=True).render(v=1)
             out = out.decode("utf-8", "replace") if isinstance(out, bytes) else out
-            locs = [int(x) for x in re.findall(r'class="location">memory:[^,<]*, line (\d+):', out)]
+            hf = [x for x in html_frames(out) if x[0].startswith("memory:")]
+            locs = [x[1] for x in hf]
+            wrong = [x for x in hf if x[1] in c["frames"] and x[2] != (lc.physical_line(text, x[1]) or "").strip()]
+            if wrong and set(c["frames"]) <= set(locs):
+                note("format-exceptions-source-line:%s" % fe_of(c)["id"], "error page shows %r for line %d" % (wrong[0][2], wrong[0][1]),
+                     {"template": text, "shown": wrong, "layout": [E[i - 1]["id"] for i in c["seq"]]})
         except Exception as e:  # noqa
             locs = "exc:" + type(e).__name__
         n_render += 1
@@ -664,7 +713,12 @@ def check(run):
             continue
         bad = [(None, "/t.html", l + (1 if i == len(exp) - 1 else 0)) for i, (_, _, l) in enumerate(exp)]
         r1 = compare_frames(bad, o, {"/t.html": text}) is not None
-        o2 = render_and_observe(lambda: Template(nl + text), stubs_of(c))
+        # (a control that renders a shifted template says something about the comparer only on a tree that is otherwise
+        # in agreement; on a tree with violations the same comparer is exercised on a synthetic shifted observation)
+        if not mism:
+            o2 = render_and_observe(lambda: Template(nl + text), stubs_of(c))
+        else:
+            o2 = dict(o, frames=[dict(f, line=f["line"] + 1) for f in o["frames"]], lineno=o["lineno"] + 1, source=nl + text)
         r2 = compare_frames(exp, o2, {"/t.html": nl + text}) is not None
         r3 = compare_frames(exp + [(None, "/t.html", 1)], o, {"/t.html": text}) is not None
         run.negative_control(r1 and r2 and r3, "frame comparer accepted a corrupted expectation / shifted template")
@@ -674,6 +728,8 @@ def check(run):
     run.assumptions += [
         "frames of generated stub functions (def name without render_ prefix) are not compared: no single construct owns them",
         "hoisted variable declarations and the __M_locals bookkeeping lines are not planted positions",
+        "filler lines holding \\x0c \\x0b \\x85 U+2028 U+2029 \\x1c lone-CR NBSP and a non-BMP character precede 7 representative raises on every run; the "
+        "displayed source text of every template frame is compared on all surfaces (records, text/html templates, format_exceptions)",
         "a plain string template without uri has no filename: the module id (memory:0x..) is accepted as its name",
         "warnings: PYTHONDONTWRITEBYTECODE=1, so a module file is compiled (and warns) once per construction; string templates are given a uri",
         "the line shown for a warning / frame is the line where the construct begins, the exact line inside <% %> and <%! %>; "
